@@ -701,6 +701,12 @@ func main() {
 		fmt.Fprintln(os.Stderr, "gen: -out required")
 		os.Exit(2)
 	}
+	if abs, err := filepath.Abs(*out); err == nil {
+		*out = abs
+	}
+	if abs, err := filepath.Abs(*repo); err == nil {
+		*repo = abs
+	}
 	os.RemoveAll(*out)
 	if err := os.MkdirAll(*out, 0o755); err != nil {
 		panic(err)
